@@ -465,7 +465,7 @@ func ctorTable() []ctorCase {
 
 func TestC13_ConstructorFaults(t *testing.T) {
 	rec := evid.For("C13")
-	rec.SetRule("fault enumeration: for every constructor (NewIO, NewTimer, Dial tcp/udp, Listen, Accept, AsyncAccept, NewPacketConn, NewUDPPeer, Open, NewMirroredBuffer, websocket Handshake and AsyncHandshake) the k-th descriptor allocation is made to fail with EMFILE for every k below the number the successful run needs (descriptor table filled, exactly k slots freed), plus refused port, bind conflict, failing bind option, unroutable/foreign bind address, missing path, bad size/network/URL, and handshake responses 200 / wrong accept / no Upgrade / truncated / garbage / immediate close; after each failing constructor the /proc/self/fd census (number -> target) must equal the census before; (b) rapid close histories and (c) GC histories, see their own rules; non-trivial = distinct (constructor, fault) pairs that returned an error; the table is enumerated completely")
+	rec.SetRule("fault enumeration: for every constructor (NewIO, NewTimer, Dial tcp/udp, Listen, Accept, AsyncAccept, NewPacketConn, NewUDPPeer, Open, NewMirroredBuffer, websocket Handshake and AsyncHandshake) the k-th descriptor allocation is made to fail with EMFILE for every k below the number the successful run needs (descriptor table filled, exactly k slots freed), plus refused port, bind conflict, failing bind option, unroutable/foreign bind address, missing path, bad size/network/URL, and handshake responses 200 / wrong accept / no Upgrade / truncated / garbage / immediate close; after each failing constructor the /proc/self/fd census (number -> target) must equal the census before, and six descriptors the harness opens right afterwards (taking the lowest free numbers) must survive two forced garbage collections untouched (nothing the constructor abandoned may close a number later); (b) rapid close histories and (c) GC histories, see their own rules; non-trivial = distinct (constructor, fault) pairs that returned an error; the table is enumerated completely")
 	rec.Assume("the census is taken after a warm-up round so that runtime-internal descriptors exist; loopback addresses only (no resolver files are opened)")
 	ioc, err := sonic.NewIO()
 	if err != nil {
@@ -519,6 +519,27 @@ func TestC13_ConstructorFaults(t *testing.T) {
 			t.Fatalf("INFRA: %s: %v", c.name, err)
 		}
 		after := census()
+		// "... never closes a descriptor the object no longer owns": whatever the constructor dropped on the floor must
+		// not come back later and close a number that has been given to somebody else in the meantime. The harness
+		// takes the lowest free numbers, lets the collector run finalizers, and looks whether it still has them.
+		var mine []int
+		for i := 0; i < 6; i++ {
+			if fd, e := syscall.Dup(devNull); e == nil {
+				mine = append(mine, fd)
+			}
+		}
+		held := census()
+		for i := 0; i < 2; i++ {
+			runtime.GC()
+			time.Sleep(2 * time.Millisecond)
+		}
+		late := leakReport(held, census())
+		for _, fd := range mine {
+			_ = syscall.Close(fd)
+		}
+		if late != "" {
+			probe(leakKey(c.name)+"-late-close", true, fmt.Sprintf("%s (returned %q): after it returned, the harness opened descriptors %v; two garbage collections later the descriptor table had changed behind its back: %s (something the constructor abandoned closed a number it no longer owned)", c.name, trunc(err), mine, late))
+		}
 		isFault := strings.Contains(c.name, ":")
 		if isFault && err == nil {
 			t.Fatalf("%s: the fault did not make the constructor fail (harness assumption broken)", c.name)
